@@ -82,7 +82,11 @@ def run(ctx):
             msg = wire.mk_message(d, crypto)
             data = bytes(msg.to_bytes())
         except Exception as ex:  # noqa: generator produced something pack() rejects
-            res.count('unencodable:' + type(ex).__name__)
+            res.count(('unencodable-wf:' if wf else 'unencodable:') + type(ex).__name__)
+            if wf:
+                # content the RFC allows (sizes at their limits included) must be expressible: refusing it is as much a loss as mangling it
+                res.fail('well-formed-content-refused:%s' % type(ex).__name__,
+                         'a well-formed message could not be built / encoded: %s' % str(ex)[:120], {'tokens': ' '.join(wire.a_msg(d))[:3000]})
             continue
         res.count('msg:enc' if enc else 'msg:clear')
         for p in d['payloads'] + d['enc']:
